@@ -3,8 +3,10 @@ package core
 
 import (
 	"encoding/base64"
+	"encoding/binary"
 	"encoding/json"
 	"fmt"
+	"hash/fnv"
 	"math/rand/v2"
 	"os"
 	"path/filepath"
@@ -59,6 +61,14 @@ func (s *Step) String() string {
 	if s.Kind == "edit" {
 		if s.Edit.Op == "write" {
 			return fmt.Sprintf("edit %s %q (%d bytes)", s.Edit.Op, s.Edit.Path, len(s.Edit.Data))
+		}
+		switch s.Edit.Op {
+		case "many":
+			return fmt.Sprintf("edit many: %d files, generation %d (first: %q)", strings.Count(string(s.Edit.Data), "\n")+1, s.Edit.MTime, strings.SplitN(string(s.Edit.Data), "\n", 2)[0])
+		case "rand":
+			return fmt.Sprintf("edit rand %q (%d pseudo-random bytes, seed %q)", s.Edit.Path, s.Edit.MTime, s.Edit.Data)
+		case "symlink":
+			return fmt.Sprintf("edit symlink %q -> %q", s.Edit.Path, s.Edit.Data)
 		}
 		return fmt.Sprintf("edit %s %q", s.Edit.Op, s.Edit.Path)
 	}
@@ -438,7 +448,49 @@ func applyEdit(sb *sandbox.Sandbox, e *Edit) {
 	case "touch":
 		t := time.Unix(e.MTime, 0)
 		os.Chtimes(p, t, t)
+	case "symlink": // Data = target (may dangle)
+		os.MkdirAll(filepath.Dir(p), 0o777)
+		os.Remove(p)
+		os.Symlink(string(e.Data), p)
+	case "rand": // MTime bytes of a generator seeded by Data: big files without big witnesses
+		os.MkdirAll(filepath.Dir(p), 0o777)
+		h := fnv.New64a()
+		h.Write(e.Data)
+		r := rand.New(rand.NewPCG(h.Sum64(), 7))
+		b := make([]byte, e.MTime)
+		for i := 0; i+8 <= len(b); i += 8 {
+			binary.LittleEndian.PutUint64(b[i:], r.Uint64())
+		}
+		os.WriteFile(p, b, 0o666)
+	case "many": // Data = newline-separated paths below Path; each file holds "<path> <MTime>\n"
+		for _, q := range strings.Split(string(e.Data), "\n") {
+			if q == "" {
+				continue
+			}
+			f := filepath.Join(p, q)
+			os.MkdirAll(filepath.Dir(f), 0o777)
+			os.WriteFile(f, []byte(fmt.Sprintf("%s %d\n", q, e.MTime)), 0o666)
+		}
 	}
+}
+
+// EditMany writes many small files in one monitored step (gen is the number put into every file).
+func (w *World) EditMany(paths []string, gen int64) *Step {
+	e := &Edit{Op: "many", Path: ".", Data: []byte(strings.Join(paths, "\n")), MTime: gen}
+	st := &Step{Seq: len(w.Steps), Kind: "edit", Edit: e, Intent: w.intent()}
+	w.exec(st)
+	return st
+}
+
+// Symlink creates a symbolic link in the working tree (the target may dangle).
+func (w *World) Symlink(path, target string) *Step { return w.Edit("symlink", path, []byte(target)) }
+
+// EditRand writes size pseudo-random bytes determined by seed.
+func (w *World) EditRand(path, seed string, size int64) *Step {
+	e := &Edit{Op: "rand", Path: path, Data: []byte(seed), MTime: size}
+	st := &Step{Seq: len(w.Steps), Kind: "edit", Edit: e, Intent: w.intent()}
+	w.exec(st)
+	return st
 }
 
 // Edit applies a user-side file-system edit as a monitored step.
